@@ -10,7 +10,9 @@ protocol and JSONDisk, one 8-shard FanoutCache: every key/value representation):
 (2) call histories with close/reopen, pickle round trips of the object and
 second handles inserted at arbitrary points, against DC.Model.Cache where those
 events are the identity on the directory; settings survive reopening.
-(3) a forked child and a freshly started process see and extend the data."""
+(3) a forked child and a freshly started process see and extend the data.
+(4) the key bytes Disk / JSONDisk store for a table of keys against the documented
+encoding; a pickled FanoutCache finds every key; sqlite_ pragmas persist."""
 import json
 import os
 import shutil
@@ -230,6 +232,55 @@ def probe_busy_reopen():
     return '; '.join(out) if out else None
 
 
+def probe_key_format():
+    """the on-disk key format, against the documented rule written out independently: Disk stores
+    int/float/str/bytes keys as they are and everything else as the optimized pickle of the key under
+    the cache's protocol; JSONDisk stores zlib-compressed JSON text of the key, the JSON written in the
+    key's own order (no sorting, default separators).  A cache written under this rule by any release
+    stays readable only if the current code still produces exactly these bytes."""
+    import json
+    import pickle
+    import pickletools
+    import sqlite3
+    import zlib
+    import diskcache
+    bad = []
+    d = tempfile.mkdtemp(prefix='c18f-')
+    try:
+        keys_json = ['a', 1, 2.5, None, True, [1, 'x'], {'user': 'alice', 'id': 7}, {'b': 1, 'a': {'z': 0, 'y': [1, 2]}}, 'é', [[], {}]]
+        c = diskcache.Cache(os.path.join(d, 'j'), disk=diskcache.JSONDisk, disk_compress_level=3)
+        for i, k in enumerate(keys_json):
+            c[k] = i
+        con = sqlite3.connect(os.path.join(d, 'j', 'cache.db'))
+        stored = [bytes(r[0]) for r in con.execute('SELECT key FROM Cache ORDER BY rowid')]
+        con.close()
+        want = [zlib.compress(json.dumps(k).encode('utf-8'), 3) for k in keys_json]
+        for k, a, b in zip(keys_json, stored, want):
+            if a != b:
+                bad.append('JSONDisk stores the key %r as %r, the documented format is %r' % (k, zlib.decompress(a)[:60], json.dumps(k)[:60]))
+                break
+        c.close()
+        for proto in (0, 2, 5):
+            keys = [(1, 'a'), None, True, 2 ** 70, (1, (2, 3)), frozenset([1])]
+            c = diskcache.Cache(os.path.join(d, 'p%d' % proto), disk_pickle_protocol=proto)
+            for i, k in enumerate(keys):
+                c[k] = i
+            con = sqlite3.connect(os.path.join(d, 'p%d' % proto, 'cache.db'))
+            rows = [(bytes(r[0]), r[1]) for r in con.execute('SELECT key, raw FROM Cache ORDER BY rowid')]
+            con.close()
+            for k, (a, raw) in zip(keys, rows):
+                b = pickletools.optimize(pickle.dumps(k, protocol=proto))
+                if a != b or raw != 0:
+                    bad.append('Disk (protocol %d) stores the key %r as %r raw=%r, the documented format is %r raw=0' % (proto, k, a[:40], raw, b[:40]))
+                    break
+            c.close()
+    except Exception as e:  # noqa
+        bad.append('key format probe raised %s: %s' % (type(e).__name__, str(e)[:100]))
+    finally:
+        shutil.rmtree(d, ignore_errors=True)
+    return '; '.join(bad[:2]) if bad else None
+
+
 def probe_processes():
     """a forked child and a freshly started interpreter share the directory"""
     import diskcache
@@ -278,7 +329,8 @@ def run(tier, seed, rng, known, replay):
     gv, gn, gs = golden_check()
     violations.extend(gv[:3])
     from props import surface
-    for probe in (probe_d16, probe_processes, probe_busy_reopen, lambda: '; '.join(surface.sqlite_pragmas()) or None):
+    for probe in (probe_d16, probe_processes, probe_busy_reopen, probe_key_format, lambda: '; '.join(surface.sqlite_pragmas()) or None,
+                  lambda: '; '.join(m_ for m_ in surface.fanout_subobjects() if 'unpickled' in m_ or 'persist' in m_) or None):
         v = probe()
         if v:
             k = base.match_known(known, {'cfg': {}}, None, v)
